@@ -302,7 +302,8 @@ impl Elab {
                     "conde" => PG::Conde(cs),
                     "conda" => PG::Conda(cs),
                     "condu" => PG::Condu(cs),
-                    "onceo" => PG::Onceo(cs.into_iter().flatten().collect()),
+                    // `onceo { a, b }`: the entries are conjoined by `Conj::from_conjunctions` (clause by clause)
+                    "onceo" => if cs.len() == 1 { PG::Onceo(cs.into_iter().flatten().collect()) } else { PG::OnceoC(cs) },
                     "loop" => PG::Loop(cs),
                     other => panic!("unknown operator {}", other),
                 }
